@@ -32,7 +32,7 @@ func init() {
 	}})
 }
 
-var c11Kinds = []string{"zerorow", "random", "vandermonde", "cauchy", "permutation", "lower", "upper", "rankdef", "duprow", "comborow", "plu-zero-pivots", "last-pivot", "zerocol", "sparse"}
+var c11Kinds = []string{"zerorow", "random", "vandermonde", "cauchy", "permutation", "lower", "upper", "rankdef", "duprow", "comborow", "plu-zero-pivots", "last-pivot", "zerocol", "sparse", "unit-upper", "unit-lower", "ones-and-zeros"}
 
 func (c *c11) Cases(tier string, seed int64) []core.Case {
 	var cs []core.Case
@@ -115,6 +115,26 @@ func c11Build(kind string, n int, r *rand.Rand) gf16.Matrix {
 				}
 			}
 			m.Set(i, i, nz())
+		}
+	case "unit-upper", "unit-lower":
+		// ones on the diagonal: nothing to scale, nothing to swap, and for the
+		// upper one nothing to eliminate below the diagonal either
+		for i := 0; i < n; i++ {
+			for j := 0; j < n; j++ {
+				if (kind == "unit-lower" && j < i) || (kind == "unit-upper" && j > i) {
+					if r.Intn(3) != 0 {
+						m.Set(i, j, rnd())
+					}
+				}
+			}
+			m.Set(i, i, 1)
+		}
+	case "ones-and-zeros":
+		// a tiny alphabet: entries equal to 1 (and to each other) everywhere
+		for i := 0; i < n; i++ {
+			for j := 0; j < n; j++ {
+				m.Set(i, j, uint16(r.Intn(3)))
+			}
 		}
 	case "rankdef":
 		rk := r.Intn(n)
